@@ -785,6 +785,9 @@ impl Scenario for Death {
             "malformed" => vec!["Err(MalformedFrame)".into()],
             "silence" | "deadpeer" => vec!["Err(MissedServerHeartbeats)".into()],
             "serverclose" | "serverclose-eof" if got_server_close => vec!["Err(ServerClosedConnection(320,going down))".into()],
+            // (a hang-up that breaks the pipe can be met by a write before the server's Close has
+            // been read - the event loop writes first: the client then knows of a write error only)
+            "serverclose-eof" if p["hangup"].as_str().map(|h| h.contains("pipe")).unwrap_or(false) => vec!["Err(IoErrorWritingSocket)".into(), "Ok".into()],
             "unsolicited" => vec!["Err(ServerClosedConnection(320,going down))".into(), "Err(FrameUnexpected)".into(), "Ok".into()],
             "clientexception" if got_tx => vec!["Err(ClientException)".into()],
             _ => vec!["Ok".into()],
